@@ -1,16 +1,29 @@
 package main
 
 // Correspondence part: the real websocket.Conn (NewServerConn over a net.Conn whose Write is held by the harness)
-// against the extracted write-side model (coq/wsconc/SendQueue.v), in lock step.
+// against the extracted write-side model (coq/wsconc/SendQueue.v), in lock step, plus a wholeness oracle on the
+// bytes handed to the socket.
 // The harness controls when every Conn.Write of the drainer (queued mode) or of WriteMessage itself (direct mode)
-// returns and with what, so a schedule of  W k (a WriteMessage of k fragments) / D ok|err (the drainer's pending
-// socket write returns; then its critical section) / C (CloseAndClean)  is replayed deterministically:
-//   model:  W k = Begin fs; Frame x k      D = DWrite; DAdvance      C = CloseClean
-// compared: the result of every WriteMessage (nil / closed / queue full / socket error), the identity of every frame
+// returns and with what, so a schedule of
+//     W (a WriteMessage: data message of a payload class and length, or a pong)   D ok|err (the drainer's pending socket
+//     write returns; then its critical section)   C (CloseAndClean)
+// is replayed deterministically:
+//   model:  W = begin_msg limit mid ctl raw z; Frame x k      D = DWrite; DAdvance      C = CloseClean
+// z, the DEFLATED length of the payload when write compression applies, is an oracle input of the model; the harness
+// computes it with compress/flate exactly as permessage-deflate prescribes (sync flush, last four bytes dropped) and
+// checks it against the frames of every accepted message.
+// compared: the result of every WriteMessage (nil / closed / queue full / socket error), the bytes of every frame
 // handed to the socket and the moment it is handed over (a new drainer after the head, the next slot after a
 // hand-over, nothing after the exit), the final wire, the close callback.
+// Two kinds of schedules: random ones, and the ADMISSION GRID of a bounded queue: bound 1..8 x compression off / on
+// (all levels) x payload zeros / text / seeded random x lengths k*limit-2..k*limit+2 (k = 1..4) and lengths whose deflated
+// size is at a frame multiple x room left in the queue 0..needed+1.
+// Wholeness oracle (implementation alone): a refused message leaves NOTHING on the wire; the frame stream never
+// starts a message inside an unfinished one.
 
 import (
+	"bytes"
+	"compress/flate"
 	"errors"
 	"fmt"
 	"math/rand"
@@ -26,7 +39,7 @@ import (
 	"verifharness/hx"
 )
 
-const qFrame = 16 // MaxWebsocketFramePayloadSize of the queue part: every fragment is one 16 byte tag
+const qFrame = 16 // MaxWebsocketFramePayloadSize of this part
 
 type fakeConn struct {
 	entered chan []byte
@@ -51,35 +64,117 @@ func (f *fakeConn) SetWriteDeadline(t time.Time) error { return nil }
 
 var errSock = errors.New("injected socket error")
 
-func tagPayload(m, k int) []byte {
-	var b []byte
-	for j := 0; j < k; j++ {
-		t := fmt.Sprintf("m%05d.%02d", m, j)
-		for len(t) < qFrame {
-			t += "."
+// refDeflate: what permessage-deflate sends for one message (RFC 7692 7.2.1): deflate, sync flush, drop 00 00 ff ff
+func refDeflate(level int, data []byte) []byte {
+	var buf bytes.Buffer
+	w := refWriters[level]
+	if w == nil {
+		var err error
+		if w, err = flate.NewWriter(&buf, level); err != nil {
+			hx.Fatal("flate level %d: %v", level, err)
 		}
-		b = append(b, t...)
+		refWriters[level] = w
+	} else {
+		w.Reset(&buf)
+	}
+	w.Write(data)
+	w.Flush()
+	b := buf.Bytes()
+	if len(b) < 4 {
+		return nil
+	}
+	return append([]byte(nil), b[:len(b)-4]...)
+}
+
+var refWriters = map[int]*flate.Writer{}
+var zlenCache = map[string]int{}
+
+func refZLen(class string, level, n int) int {
+	k := fmt.Sprintf("%s/%d/%d", class, level, n)
+	if z, ok := zlenCache[k]; ok {
+		return z
+	}
+	z := len(refDeflate(level, genPayload(class, n, 1, 1)))
+	zlenCache[k] = z
+	return z
+}
+
+var payloadClasses = []string{"zeros", "text", "random"}
+
+// genPayload: n bytes of the class; the first bytes carry the message id so that no two messages render to the same first frame
+func genPayload(class string, n int, seed int64, mid int) []byte {
+	b := genFill(class, n, seed)
+	copy(b, fmt.Sprintf("#%03d", mid))
+	return b
+}
+
+func genFill(class string, n int, seed int64) []byte {
+	b := make([]byte, n)
+	switch class {
+	case "text":
+		const t = "the quick brown fox jumps over the lazy dog; pack my box with five dozen liquor jugs. "
+		for i := range b {
+			b[i] = t[(i+int(seed%7))%len(t)]
+		}
+	case "random":
+		rand.New(rand.NewSource(seed)).Read(b)
 	}
 	return b
 }
 
-// frameID decodes the identity of a server frame written by the library: m*100 + fragment index; -1 if it is none
-func frameID(b []byte) int {
-	if len(b) != 2+qFrame || b[1] != qFrame || b[2] != 'm' {
-		return -1
+type qmsg struct {
+	Mid    int    `json:"id"`
+	Ctl    bool   `json:"pong,omitempty"`
+	Class  string `json:"payload,omitempty"`
+	Raw    int    `json:"raw_len"`
+	Z      int    `json:"deflated_len"` // -1: not compressed
+	Frames int    `json:"frames"`
+	Res    string `json:"result"`
+	Room   string `json:"queue_len/bound_at_the_call,omitempty"`
+	data   []byte
+	wire   []byte // the bytes that go out: deflated or raw
+}
+
+func (m *qmsg) nframes() int {
+	if m.Ctl || len(m.wire) == 0 {
+		return 1
 	}
-	m, e1 := strconv.Atoi(string(b[3:8]))
-	j, e2 := strconv.Atoi(string(b[9:11]))
-	if e1 != nil || e2 != nil {
-		return -1
+	return (len(m.wire) + qFrame - 1) / qFrame
+}
+
+// frame j of the message as the library must render it (server role: unmasked; payloads < 126 bytes)
+func (m *qmsg) frame(j int) []byte {
+	lo, hi := j*qFrame, (j+1)*qFrame
+	if m.Ctl {
+		lo, hi = 0, len(m.wire)
 	}
-	return m*100 + j
+	if hi > len(m.wire) {
+		hi = len(m.wire)
+	}
+	if lo > hi {
+		lo = hi
+	}
+	var b0 byte
+	if j == 0 {
+		b0 = opBin
+		if m.Ctl {
+			b0 = opPong
+		}
+		if m.Z >= 0 {
+			b0 |= 0x40
+		}
+	}
+	if j == m.nframes()-1 {
+		b0 |= 0x80
+	}
+	return append([]byte{b0, byte(hi - lo)}, m.wire[lo:hi]...)
 }
 
 type mstate struct {
 	head   string // observation, e.g. "F ok 1"
 	hand   int    // -1: nothing in the drainer's hand
 	dr     string // - | W | L
+	slots  int
 	closed bool
 	failed bool
 }
@@ -100,40 +195,87 @@ func parseAns(s string) (mstate, error) {
 		st.hand, _ = strconv.Atoi(f[0])
 	}
 	st.dr = f[1]
+	st.slots, _ = strconv.Atoi(f[3])
 	st.closed = f[4] == "1"
 	st.failed = f[5] == "1"
 	return st, nil
 }
 
 var qEngine *nbhttp.Engine
-var slept, asked time.Duration
 
 type qcase struct {
-	Mode  string   `json:"mode"`
-	MaxQ  int      `json:"BlockingModSendQueueMaxSize"`
-	Seed  int64    `json:"seed"`
-	Ops   []string `json:"ops"`
-	Slow  bool     `json:"slow_settle,omitempty"`
-	Wire  []int    `json:"wire_of_the_implementation"`
-	Model string   `json:"model_final,omitempty"`
+	Kind     string  `json:"kind"` // random | admission-grid
+	Mode     string  `json:"mode"`
+	MaxQ     int     `json:"BlockingModSendQueueMaxSize"`
+	Compress bool    `json:"write_compression"`
+	Level    int     `json:"compression_level"`
+	Seed     int64   `json:"seed"`
+	Ops      []string `json:"ops"`
+	Msgs     []*qmsg `json:"messages"`
+	Slow     bool    `json:"slow_settle,omitempty"`
+	Wire     []string `json:"frames_handed_to_the_socket"`
+	Model    string  `json:"model_final,omitempty"`
 }
 
-// runQueueCase replays one generated schedule; returns a description of the first disagreement ("" if none).
-func runQueueCase(m *hx.Model, seed int64, slow bool) (qc qcase, diff string) {
+type qproblem struct {
+	kind, sig, what string
+}
+
+// one scripted operation of a schedule
+type qop struct {
+	op    string // W P D E C  (data message, pong, socket write ok, socket write error, CloseAndClean)
+	class string
+	n     int
+}
+
+type gridPoint struct {
+	maxq, level, room int
+	compress          bool
+	class             string
+	n                 int
+}
+
+// lengths of interest for one (class, level): around the frame multiples of the raw length, and those whose deflated
+// length is at or next to a frame multiple
+func gridLengths(class string, compress bool, level int, seed int64) []int {
+	var ls []int
+	for k := 1; k <= 4; k++ {
+		for d := -2; d <= 2; d++ {
+			ls = append(ls, k*qFrame+d)
+		}
+	}
+	if compress {
+		for n := 1; n <= 5*qFrame; n++ {
+			z := refZLen(class, level, n)
+			if r := z % qFrame; (r <= 1 || r == qFrame-1) && z > 0 && (z+qFrame-1)/qFrame != (n+qFrame-1)/qFrame {
+				ls = append(ls, n)
+			}
+		}
+	}
+	return ls
+}
+
+// runQueueCase replays one schedule; returns the first disagreement / oracle failure, if any.
+func runQueueCase(m *hx.Model, seed int64, slow bool, grid *gridPoint) (qc qcase, prob *qproblem) {
 	r := rand.New(rand.NewSource(seed))
 	queued := r.Intn(4) != 0
 	maxq := 0
-	if queued && r.Intn(3) == 0 {
-		maxq = 2 + r.Intn(7)
+	if queued && r.Intn(2) == 0 {
+		maxq = 1 + r.Intn(8)
 	}
+	compress := r.Intn(2) == 0
+	level := []int{-2, -1, 0, 1, 1, 2, 5, 6, 9}[r.Intn(9)]
+	kind := "random"
+	if grid != nil {
+		kind, queued, maxq, compress, level = "admission-grid", true, grid.maxq, grid.compress, grid.level
+	}
+	qc = qcase{Kind: kind, Mode: map[bool]string{true: "queued", false: "direct"}[queued], MaxQ: maxq, Compress: compress, Level: level, Seed: seed, Slow: slow}
 	var st mstate
-	st0 := func() mstate { return st }
-	qc = qcase{Mode: map[bool]string{true: "queued", false: "direct"}[queued], MaxQ: maxq, Seed: seed, Slow: slow}
+	st = mstate{hand: -1, dr: "-"}
+	var diff string
 	settle := func() {
-		if !slow && (maxq == 0 || st0().closed) {
+		if !slow && (maxq == 0 || st.closed) {
 			// unbounded queue or closed connection: a late exit of the drainer cannot change any later observation
-			// (the only thing that reads the queue length is the bound check of an open connection; a frame written
-			// twice or out of turn shows up as a wrong frame identity or in the final wire)
 			return
 		}
 		if slow {
@@ -148,18 +290,20 @@ func runQueueCase(m *hx.Model, seed int64, slow bool) (qc qcase, diff string) {
 	u.Engine = qEngine
 	u.BlockingModSendQueueMaxSize = uint16(maxq)
 	u.BlockingModAsyncCloseDelay = time.Millisecond
+	if err := u.SetCompressionLevel(level); err != nil {
+		hx.Fatal("level %d: %v", level, err)
+	}
 	var closes int32
 	u.OnClose(func(c *websocket.Conn, err error) { atomic.AddInt32(&closes, 1) })
-	c := websocket.NewServerConn(u, fc, "", false, queued)
+	c := websocket.NewServerConn(u, fc, "", compress, queued) // remoteCompressionEnabled = compress: write compression on
 	if m.Ask("init %s %d", map[bool]string{true: "q", false: "d"}[queued], maxq) != "OK" {
 		hx.Fatal("model init")
 	}
-	var wire []int
-	st = mstate{hand: -1, dr: "-"}
+	msgs := map[int]*qmsg{}
+	var wire [][]byte // frames whose socket write succeeded
+	injected := false
 	ask := func(format string, a ...interface{}) mstate {
-		t8 := time.Now()
 		s := m.Ask(format, a...)
-		asked += time.Since(t8)
 		ns, err := parseAns(s)
 		if err != nil {
 			hx.Fatal("%v", err)
@@ -170,27 +314,46 @@ func runQueueCase(m *hx.Model, seed int64, slow bool) (qc qcase, diff string) {
 		st = ns
 		return ns
 	}
+	describe := func(b []byte) string {
+		for _, mm := range msgs {
+			for j := 0; j < mm.nframes(); j++ {
+				if bytes.Equal(mm.frame(j), b) {
+					return fmt.Sprintf("frame %d of message %d", j, mm.Mid)
+				}
+			}
+		}
+		if len(b) >= 2 {
+			return fmt.Sprintf("an unknown frame (byte0 %#x, %d payload bytes)", b[0], len(b)-2)
+		}
+		return "garbage"
+	}
 	// the drainer (or, in direct mode, the writer) must now be entering Conn.Write with exactly this frame
-	expectWrite := func(want int, why string) (ok bool) {
+	var pending []byte
+	held := false          // a Conn.Write is blocked on the harness's verdict; its frame is [pending]
+	var stray []byte       // a Conn.Write the model did not expect, not yet answered
+	expectWrite := func(want int, why string) bool {
+		mm := msgs[want/100]
+		exp := mm.frame(want % 100)
 		select {
 		case b := <-fc.entered:
-			if id := frameID(b); id != want {
-				diff = fmt.Sprintf("%s: frame %d handed to the socket, the model says %d", why, id, want)
-				// keep the goroutine going
-				go func() { fc.verdict <- nil }()
+			if !bytes.Equal(b, exp) {
+				diff = fmt.Sprintf("%s: %s handed to the socket, the model says frame %d of message %d (byte0 %#x, %d payload bytes)",
+					why, describe(b), want%100, want/100, exp[0], len(exp)-2)
+				stray = b
 				return false
 			}
+			pending, held = b, true
 			return true
 		case <-time.After(5 * time.Second):
-			diff = fmt.Sprintf("%s: no Conn.Write within 5s, the model says frame %d is handed to the socket", why, want)
+			diff = fmt.Sprintf("%s: no Conn.Write within 5s, the model says frame %d of message %d is handed to the socket", why, want%100, want/100)
 			return false
 		}
 	}
 	noWrite := func(why string) bool {
 		select {
 		case b := <-fc.entered:
-			diff = fmt.Sprintf("%s: unexpected Conn.Write of frame %d", why, frameID(b))
-			go func() { fc.verdict <- nil }()
+			diff = fmt.Sprintf("%s: unexpected Conn.Write of %s", why, describe(b))
+			stray = b
 			return false
 		default:
 			return true
@@ -211,165 +374,380 @@ func runQueueCase(m *hx.Model, seed int64, slow bool) (qc qcase, diff string) {
 	}
 	nmsg := 0
 	closedOnce := false
-	nops := 6 + r.Intn(22)
-	for op := 0; op < nops && diff == ""; op++ {
-		x := r.Intn(100)
-		switch {
-		case queued && st.dr == "W" && x < 50:
-			// D: the pending socket write returns
-			ok := x >= 4 || st.closed
-			id := st.hand
-			if ok {
-				qc.Ops = append(qc.Ops, "D ok")
-				fc.verdict <- nil
-				wire = append(wire, id)
-			} else {
-				qc.Ops = append(qc.Ops, "D err")
-				fc.verdict <- errSock
+	newMsg := func(ctl bool, class string, n int) *qmsg {
+		nmsg++
+		mm := &qmsg{Mid: nmsg, Ctl: ctl, Class: class, Raw: n, Z: -1}
+		if ctl {
+			mm.data = []byte(fmt.Sprintf("p%03d", nmsg))
+			mm.Raw, mm.Class = len(mm.data), ""
+		} else {
+			ps := seed + int64(nmsg)
+			if grid != nil {
+				ps = 1 // the grid's lengths were chosen for this content
 			}
-			ask("w %d", b2i(ok))
-			if !ok {
-				settle()
-				break
-			}
-			a := ask("a")
-			if a.head == "A 0" {
-				if !expectWrite(a.hand, "after a hand-over") {
-					break
-				}
-			} else {
-				settle()
-				noWrite("after the drainer's exit")
-			}
-		case x < 92 || closedOnce && x < 97:
-			// W k
-			k := 1 + r.Intn(4)
-			nmsg++
-			var ids []string
-			for j := 0; j < k; j++ {
-				ids = append(ids, strconv.Itoa(nmsg*100+j))
-			}
-			if queued {
-				qc.Ops = append(qc.Ops, fmt.Sprintf("W %d", k))
-				err := c.WriteMessage(websocket.BinaryMessage, tagPayload(nmsg, k))
-				b := ask("b %s", strings.Join(ids, ","))
-				want, head := strings.TrimPrefix(b.head, "B "), false // refused as a whole: closed / full
-				if b.head == "B -" {
-					want = "-"
-					for want == "-" {
-						f := ask("f 1")
-						fs := strings.Fields(f.head)
-						want = fs[1]
-						if fs[2] == "1" {
-							head = true
-						}
+			mm.data = genPayload(class, n, ps, nmsg)
+		}
+		mm.wire = mm.data
+		if compress && !ctl {
+			mm.wire = refDeflate(level, mm.data)
+			mm.Z = len(mm.wire)
+		}
+		mm.Frames = mm.nframes()
+		msgs[nmsg] = mm
+		qc.Msgs = append(qc.Msgs, mm)
+		return mm
+	}
+	// W: one WriteMessage and the model's begin_msg + Frames
+	doWrite := func(mm *qmsg, failAt int) {
+		mt := websocket.BinaryMessage
+		ctl := 0
+		if mm.Ctl {
+			mt, ctl = websocket.PongMessage, 1
+		}
+		z := "-"
+		if mm.Z >= 0 {
+			z = strconv.Itoa(mm.Z)
+		}
+		mm.Room = fmt.Sprintf("%d/%d", st.slots, maxq)
+		if queued {
+			qc.Ops = append(qc.Ops, fmt.Sprintf("W%d", mm.Mid))
+			err := c.WriteMessage(mt, mm.data)
+			mm.Res = resName(err)
+			b := ask("m %d %d %d %d %s", qFrame, mm.Mid, ctl, mm.Raw, z)
+			want, head := strings.TrimPrefix(b.head, "B "), false // refused as a whole: closed / full
+			if b.head == "B -" {
+				want = "-"
+				for want == "-" {
+					f := ask("f 1")
+					fs := strings.Fields(f.head)
+					want = fs[1]
+					if fs[2] == "1" {
+						head = true
 					}
 				}
-				if got := resName(err); got != want {
-					diff = fmt.Sprintf("WriteMessage #%d (%d fragments) returned %s, the model says %s", nmsg, k, got, want)
-					break
+			}
+			if mm.Res != want {
+				diff = fmt.Sprintf("WriteMessage of message %d (%d bytes raw, %d on the wire = %d frames, queue %s) returned %s, the model says %s",
+					mm.Mid, mm.Raw, len(mm.wire), mm.Frames, mm.Room, mm.Res, want)
+				return
+			}
+			if head {
+				expectWrite(st.hand, "a call that found the queue empty starts a drainer")
+			} else if st.dr != "W" && want != "closed" {
+				settle()
+				noWrite("after a call that started no drainer")
+			}
+			return
+		}
+		qc.Ops = append(qc.Ops, fmt.Sprintf("W%d fail-at %d", mm.Mid, failAt))
+		resc := make(chan error, 1)
+		go func() { resc <- c.WriteMessage(mt, mm.data) }()
+		b := ask("m %d %d %d %d %s", qFrame, mm.Mid, ctl, mm.Raw, z)
+		want := strings.TrimPrefix(b.head, "B ")
+		if b.head == "B -" {
+			want = "-"
+			for j := 0; want == "-"; j++ {
+				if !expectWrite(mm.Mid*100+j, "direct write") {
+					return
 				}
-				if head {
-					expectWrite(st.hand, "a call that found the queue empty starts a drainer")
-				} else if st.dr != "W" {
-					settle()
-					noWrite("after a call that started no drainer")
+				ok := j != failAt
+				held = false
+				if ok {
+					fc.verdict <- nil
+					wire = append(wire, pending)
+				} else {
+					injected = true
+					fc.verdict <- errSock
 				}
-			} else {
+				f := ask("f %d", b2i(ok))
+				want = strings.Fields(f.head)[1]
+			}
+		}
+		select {
+		case err := <-resc:
+			mm.Res = resName(err)
+			if mm.Res != want {
+				diff = fmt.Sprintf("WriteMessage of message %d (%d frames) returned %s, the model says %s", mm.Mid, mm.Frames, mm.Res, want)
+			}
+		case <-time.After(5 * time.Second):
+			diff = fmt.Sprintf("WriteMessage of message %d did not return, the model says %s", mm.Mid, want)
+		}
+	}
+	doD := func(ok bool) {
+		held = false
+		if ok {
+			qc.Ops = append(qc.Ops, "D")
+			fc.verdict <- nil
+			wire = append(wire, pending)
+		} else {
+			qc.Ops = append(qc.Ops, "E")
+			injected = true
+			fc.verdict <- errSock
+		}
+		ask("w %d", b2i(ok))
+		if !ok {
+			settle()
+			return
+		}
+		a := ask("a")
+		if a.head == "A 0" {
+			expectWrite(a.hand, "after a hand-over")
+		} else {
+			settle()
+			noWrite("after the drainer's exit")
+		}
+	}
+	doC := func() {
+		qc.Ops = append(qc.Ops, "C")
+		c.CloseAndClean(nil)
+		if a := ask("c"); a.head == "C 1" {
+			closedOnce = true
+		}
+	}
+
+	if grid != nil {
+		// room left for the message under test: fill the queue behind a held drainer with single-frame pongs
+		fill := maxq - grid.room
+		for i := 0; i < fill && diff == ""; i++ {
+			doWrite(newMsg(true, "", 0), -1)
+		}
+		if diff == "" {
+			doWrite(newMsg(false, grid.class, grid.n), -1)
+		}
+		// the next message would start inside an unfinished one; give it room first in half of the cases
+		if diff == "" && st.dr == "W" && r.Intn(2) == 0 {
+			doD(true)
+		}
+		if diff == "" {
+			doWrite(newMsg(false, "text", 5), -1)
+		}
+	} else {
+		nops := 6 + r.Intn(22)
+		for op := 0; op < nops && diff == ""; op++ {
+			x := r.Intn(100)
+			switch {
+			case queued && st.dr == "W" && x < 45:
+				doD(x >= 4 || st.closed)
+			case x < 92 || closedOnce && x < 97:
 				failAt := -1
+				if !queued && r.Intn(5) == 0 {
+					failAt = r.Intn(3)
+				}
 				if r.Intn(5) == 0 {
-					failAt = r.Intn(k)
-				}
-				qc.Ops = append(qc.Ops, fmt.Sprintf("W %d fail-at %d", k, failAt))
-				resc := make(chan error, 1)
-				go func(n, k int) { resc <- c.WriteMessage(websocket.BinaryMessage, tagPayload(n, k)) }(nmsg, k)
-				b := ask("b %s", strings.Join(ids, ","))
-				want := strings.TrimPrefix(b.head, "B ")
-				if b.head == "B -" {
-					want = "-"
-					for j := 0; want == "-"; j++ {
-						if !expectWrite(nmsg*100+j, "direct write") {
-							break
-						}
-						ok := j != failAt
-						if ok {
-							fc.verdict <- nil
-							wire = append(wire, nmsg*100+j)
-						} else {
-							fc.verdict <- errSock
-						}
-						f := ask("f %d", b2i(ok))
-						want = strings.Fields(f.head)[1]
+					doWrite(newMsg(true, "", 0), failAt)
+				} else {
+					n := r.Intn(4*qFrame + 3)
+					if r.Intn(2) == 0 {
+						n = (1+r.Intn(4))*qFrame - 2 + r.Intn(5)
 					}
+					doWrite(newMsg(false, payloadClasses[r.Intn(3)], n), failAt)
 				}
-				if diff != "" {
-					break
-				}
-				select {
-				case err := <-resc:
-					if got := resName(err); got != want {
-						diff = fmt.Sprintf("WriteMessage #%d (%d fragments) returned %s, the model says %s", nmsg, k, got, want)
-					}
-				case <-time.After(5 * time.Second):
-					diff = fmt.Sprintf("WriteMessage #%d did not return, the model says %s", nmsg, want)
-				}
-			}
-		default:
-			// C
-			qc.Ops = append(qc.Ops, "C")
-			c.CloseAndClean(nil)
-			a := ask("c")
-			if a.head == "C 1" {
-				closedOnce = true
+			default:
+				doC()
 			}
 		}
 	}
 	// let the drainer finish
 	for diff == "" && queued && st.dr == "W" {
-		qc.Ops = append(qc.Ops, "D ok (drain)")
-		id := st.hand
-		fc.verdict <- nil
-		wire = append(wire, id)
-		ask("w 1")
-		if a := ask("a"); a.head == "A 0" {
-			if !expectWrite(a.hand, "after a hand-over (drain)") {
-				break
+		doD(true)
+	}
+	if diff != "" {
+		// The model and the implementation disagree. Go on with the implementation alone, so that the wholeness oracle
+		// can still find a concrete failing input: answer every socket write with success until the connection is quiet,
+		// write one more small message (it would start inside a message left unfinished), drain again.
+		serve := func() {
+			if held {
+				held = false
+				fc.verdict <- nil
+				wire = append(wire, pending)
+			}
+			if stray != nil {
+				fc.verdict <- nil
+				wire = append(wire, stray)
+				stray = nil
+			}
+			for {
+				select {
+				case b := <-fc.entered:
+					fc.verdict <- nil
+					wire = append(wire, b)
+				case <-time.After(3 * time.Millisecond):
+					return
+				}
 			}
 		}
+		serve()
+		if !closedOnce {
+			mm := newMsg(false, "text", 5)
+			mm.Room = "?"
+			resc := make(chan error, 1)
+			go func() { resc <- c.WriteMessage(websocket.BinaryMessage, mm.data) }()
+			serve()
+			select {
+			case err := <-resc:
+				mm.Res = resName(err)
+			case <-time.After(time.Second):
+			}
+			serve()
+			qc.Ops = append(qc.Ops, fmt.Sprintf("(implementation only) W%d, every socket write succeeds", mm.Mid))
+		}
 	}
-	qc.Wire = wire
+	for _, b := range wire {
+		qc.Wire = append(qc.Wire, describe(b))
+	}
+	// ---- wholeness oracle on the implementation alone ----
+	// The frames handed to the socket are cut into messages by their FIN bits; every complete message must be the wire
+	// form of a WriteMessage that returned nil (each at most once), none may be cut short by the start of another, and
+	// on a connection that stayed open every accepted message must be there.
+	if !injected {
+		type parsed struct {
+			b0      byte
+			payload []byte
+			frames  int
+			at      int
+		}
+		matched := map[int]bool{}
+		sameMsg := func(p *parsed, mm *qmsg, prefix bool) bool {
+			if p.b0&0x4f != mm.frame(0)[0]&0x4f {
+				return false
+			}
+			if prefix {
+				return bytes.HasPrefix(mm.wire, p.payload) && p.frames < mm.nframes()
+			}
+			return bytes.Equal(mm.wire, p.payload) && p.frames == mm.nframes()
+		}
+		info := func(mm *qmsg) string {
+			return fmt.Sprintf("message %d (%s payload, %d bytes raw, %d on the wire = %d frames; queue length/bound at the call %s; WriteMessage returned %q)",
+				mm.Mid, mm.Class, mm.Raw, len(mm.wire), mm.Frames, mm.Room, mm.Res)
+		}
+		var bad *qproblem
+		complete := func(p *parsed) {
+			for _, mm := range qc.Msgs {
+				if mm.Res == "ok" && !matched[mm.Mid] && sameMsg(p, mm, false) {
+					matched[mm.Mid] = true
+					return
+				}
+			}
+			for _, mm := range qc.Msgs {
+				if mm.Res != "ok" && sameMsg(p, mm, false) {
+					sig := "partial-message-queue-full"
+					if mm.Res != "full" {
+						sig = "interleaved-frames-" + qc.Mode
+					}
+					bad = &qproblem{"oracle", sig, fmt.Sprintf("frames %d..%d handed to the socket are %s: a refused message must leave nothing on the wire", p.at, p.at+p.frames-1, info(mm))}
+					return
+				}
+			}
+			bad = &qproblem{"oracle", "message-duplicated", fmt.Sprintf("frames %d..%d handed to the socket form a message (%d payload bytes) that is no accepted message, or one that was already there", p.at, p.at+p.frames-1, len(p.payload))}
+		}
+		interrupted := func(p *parsed, by int) {
+			sig, who := "interleaved-frames-"+qc.Mode, "an unknown message"
+			for _, mm := range qc.Msgs {
+				if sameMsg(p, mm, true) {
+					who = info(mm)
+					if mm.Res == "full" {
+						sig = "partial-message-queue-full"
+						break
+					}
+				}
+			}
+			bad = &qproblem{"oracle", sig, fmt.Sprintf("frame %d handed to the socket (%s) starts a message inside an unfinished one: frames %d..%d are the first %d fragment(s) of %s",
+				by, describe(wire[by]), p.at, p.at+p.frames-1, p.frames, who)}
+		}
+		var cur *parsed
+		for i, b := range wire {
+			if bad != nil || len(b) < 2 {
+				break
+			}
+			op, fin := b[0]&0x0f, b[0]&0x80 != 0
+			switch {
+			case op >= 8:
+				complete(&parsed{b0: b[0], payload: b[2:], frames: 1, at: i})
+				continue
+			case op != 0:
+				if cur != nil {
+					interrupted(cur, i)
+				}
+				cur = &parsed{b0: b[0], at: i}
+			default:
+				if cur == nil {
+					bad = &qproblem{"oracle", "interleaved-frames-" + qc.Mode, fmt.Sprintf("frame %d handed to the socket is a continuation frame without a message in progress", i)}
+					continue
+				}
+			}
+			if bad != nil {
+				break
+			}
+			cur.payload = append(cur.payload, b[2:]...)
+			cur.frames++
+			if fin {
+				complete(cur)
+				cur = nil
+			}
+		}
+		if bad == nil && cur != nil && !closedOnce {
+			interruptedAtEnd := *cur
+			who := "an unknown message"
+			sig := "interleaved-frames-" + qc.Mode
+			for _, mm := range qc.Msgs {
+				if sameMsg(&interruptedAtEnd, mm, true) {
+					who = info(mm)
+					if mm.Res == "full" {
+						sig = "partial-message-queue-full"
+						break
+					}
+				}
+			}
+			bad = &qproblem{"oracle", sig, fmt.Sprintf("the wire ends inside an unfinished message although the connection is open and the queue drained: frames %d..%d are the first %d fragment(s) of %s", cur.at, cur.at+cur.frames-1, cur.frames, who)}
+		}
+		if bad == nil && !closedOnce {
+			for _, mm := range qc.Msgs {
+				if mm.Res == "ok" && !matched[mm.Mid] {
+					bad = &qproblem{"oracle", "message-lost-" + qc.Mode, fmt.Sprintf("%s is not on the wire as one complete frame sequence (deflated form computed with compress/flate level %d)", info(mm), level)}
+					break
+				}
+			}
+		}
+		if bad != nil {
+			return qc, bad
+		}
+	}
 	if diff != "" {
-		return
+		return qc, &qproblem{"mismatch", "sendqueue-model", "websocket.Conn write side vs. SendQueue.v: " + diff}
 	}
-	t9 := time.Now()
-	time.Sleep(500 * time.Microsecond)
-	slept += time.Since(t9)
+	time.Sleep(300 * time.Microsecond)
 	if !noWrite("at the end") {
-		return
+		return qc, &qproblem{"mismatch", "sendqueue-model", "websocket.Conn write side vs. SendQueue.v: " + diff}
 	}
 	q := m.Ask("q")
 	qc.Model = q
 	mw := strings.TrimSpace(strings.SplitN(strings.TrimPrefix(q, "Q "), ";", 2)[0])
-	var ws []string
-	for _, id := range wire {
-		ws = append(ws, strconv.Itoa(id))
+	var exp [][]byte
+	if mw != "-" {
+		for _, t := range strings.Split(mw, ",") {
+			id, _ := strconv.Atoi(t)
+			if mm := msgs[id/100]; mm != nil && id%100 < mm.nframes() {
+				exp = append(exp, mm.frame(id%100))
+			} else {
+				exp = append(exp, nil)
+			}
+		}
 	}
-	iw := strings.Join(ws, ",")
-	if iw == "" {
-		iw = "-"
+	same := len(exp) == len(wire)
+	for i := 0; same && i < len(exp); i++ {
+		same = bytes.Equal(exp[i], wire[i])
 	}
-	if iw != mw {
-		diff = fmt.Sprintf("frames written to the socket: %s, model: %s", iw, mw)
-		return
+	if !same {
+		return qc, &qproblem{"mismatch", "sendqueue-model", fmt.Sprintf("websocket.Conn write side vs. SendQueue.v: frames written to the socket: %v, model: %s", qc.Wire, mw)}
 	}
 	want := int32(0)
 	if closedOnce {
 		want = 1
 	}
 	if got := atomic.LoadInt32(&closes); got != want {
-		diff = fmt.Sprintf("%d close callbacks, expected %d", got, want)
+		return qc, &qproblem{"mismatch", "sendqueue-model", fmt.Sprintf("%d close callbacks, expected %d", got, want)}
 	}
-	return
+	return qc, nil
 }
 
 func b2i(b bool) int {
@@ -379,8 +757,9 @@ func b2i(b bool) int {
 	return 0
 }
 
-// queuePart: n generated schedules; a disagreement is re-run with long settling times before it is reported.
-func queuePart(rep *hx.Report, modelPath string, seed int64, n int) {
+// queuePart: n schedules (half random, half points of the admission grid, which is swept completely in the thorough
+// tier); a failure is re-run with long settling times before it is reported.
+func queuePart(rep *hx.Report, modelPath string, seed int64, n int, fullGrid bool) {
 	if modelPath == "" || n <= 0 {
 		return
 	}
@@ -388,37 +767,85 @@ func queuePart(rep *hx.Report, modelPath string, seed int64, n int) {
 	m := hx.StartModel(modelPath)
 	defer m.Close()
 	r := rand.New(rand.NewSource(seed ^ 0x5eed))
-	nbad := 0
-	for i := 0; i < n && nbad < 5; i++ {
-		cs := r.Int63()
-		qc, diff := runQueueCase(m, cs, false)
-		if diff != "" {
+	nbad, nmis := 0, 0
+	run := func(cs int64, gp *gridPoint) {
+		qc, p := runQueueCase(m, cs, false, gp)
+		if p != nil {
 			rep.Stat("queue.rerun")
-			qc2, diff2 := runQueueCase(m, cs, true)
-			if diff2 == "" {
-				diff = ""
+			qc2, p2 := runQueueCase(m, cs, true, gp)
+			if p2 == nil {
+				p = nil
 			} else {
-				qc, diff = qc2, diff2
+				qc, p = qc2, p2
 			}
 		}
-		rep.Case(fmt.Sprintf("queue/%s/%d/%v", qc.Mode, qc.MaxQ, qc.Ops), len(qc.Ops) > 3)
+		rep.Case(fmt.Sprintf("queue/%s/%s/%d/%v/%d/%v/%v", qc.Kind, qc.Mode, qc.MaxQ, qc.Compress, qc.Level, qc.Ops, gp), len(qc.Ops) > 2)
 		rep.Ops += len(qc.Ops)
-		rep.Stat("queue.cases." + qc.Mode)
+		rep.Stat("queue.cases." + qc.Kind + "." + qc.Mode)
 		if qc.MaxQ > 0 {
 			rep.Stat("queue.cases.bounded")
 		}
-		for _, o := range qc.Ops {
-			rep.Stat("queue.op." + strings.Fields(o)[0])
+		if qc.Compress {
+			rep.Stat("queue.cases.compressed")
 		}
-		if diff != "" {
-			nbad++
-			rep.Add(hx.Finding{Kind: "mismatch", Property: "C14", Signature: "sendqueue-model",
-				What:   "websocket.Conn write side vs. SendQueue.v: " + diff,
-				Replay: map[string]interface{}{"harness": "wsconc", "part": "queue", "case": qc}})
+		for _, mm := range qc.Msgs {
+			if mm.Res != "" {
+				rep.Stat("queue.write." + mm.Res)
+			}
+			if mm.Z >= 0 && (mm.Z+qFrame-1)/qFrame > (mm.Raw+qFrame-1)/qFrame {
+				rep.Stat("queue.write.deflated-needs-more-frames." + mm.Res)
+			}
+		}
+		if p != nil {
+			if p.kind == "oracle" {
+				nbad++
+			} else if nmis++; nmis >= 40 {
+				nbad = 5
+			}
 			allFindings++
+			seriousFindings++
+			rep.Add(hx.Finding{Kind: p.kind, Property: "C14", Signature: p.sig, What: p.what,
+				Replay: map[string]interface{}{"harness": "wsconc", "part": "queue", "case": qc, "grid_point": fmt.Sprintf("%+v", gp)}})
 		}
-		if i < 2 {
+		if rep.Cases <= 2 {
 			rep.Sample(map[string]interface{}{"part": "queue", "case": qc})
 		}
+	}
+	// the admission grid
+	var grid []gridPoint
+	levels := []int{-2, -1, 0, 1, 2, 3, 4, 5, 6, 7, 8, 9}
+	for maxq := 1; maxq <= 8; maxq++ {
+		for ci := -1; ci < len(levels); ci++ {
+			compress, level := ci >= 0, 1
+			if compress {
+				level = levels[ci]
+			}
+			for _, class := range payloadClasses {
+				for _, n := range gridLengths(class, compress, level, 1) {
+					wl := n
+					if compress {
+						wl = refZLen(class, level, n)
+					}
+					need := (wl + qFrame - 1) / qFrame
+					for room := 0; room <= need+1 && room <= maxq; room++ {
+						grid = append(grid, gridPoint{maxq: maxq, level: level, room: room, compress: compress, class: class, n: n})
+					}
+				}
+			}
+		}
+	}
+	rep.Extra["admission_grid_points"] = len(grid)
+	if fullGrid {
+		for i := 0; i < len(grid) && nbad < 5; i++ {
+			run(int64(i)+seed*1000003, &grid[i])
+		}
+	} else {
+		r.Shuffle(len(grid), func(i, j int) { grid[i], grid[j] = grid[j], grid[i] })
+		for i := 0; i < n/2 && i < len(grid) && nbad < 5; i++ {
+			run(r.Int63(), &grid[i])
+		}
+	}
+	for i := 0; i < n-n/2 && nbad < 5; i++ {
+		run(r.Int63(), nil)
 	}
 }
